@@ -1,10 +1,10 @@
------------------------------ MODULE FilterTrace -----------------------------
-(* C19 - the recorded decisions of the real TrafficFilter judged by FilterP.     *)
+-------------------------- MODULE TrafficFilterTrace --------------------------
+(* C19 - the recorded decisions of the real TrafficFilter judged by TrafficFilterP.     *)
 (* trace.ndjson: line 1 = {"ev":"config",...}, then one line per case (input of  *)
-(* the case as FilterP describes it + res = what is_allowed really answered).    *)
+(* the case as TrafficFilterP describes it + res = what is_allowed really answered).    *)
 (* The decisions are independent, so the judgement is one constant-level         *)
 (* evaluation: the set of lines P does not permit is printed.                    *)
-EXTENDS FilterP, TraceLib
+EXTENDS TrafficFilterP, TraceLib
 
 Bad == {i \in 2..TraceLen : ~Permitted(TraceLog[i])}
 Constrained == Cardinality({i \in 2..TraceLen : MustNotRoute(TraceLog[i])})
